@@ -1,0 +1,16 @@
+//go:build verif
+
+package request
+
+// Contracts for the govc verifier (see /verif/DESIGN.md). Comment-only: declares nothing.
+
+// ---- C18: what get / list hand back about a task -----------------------------------------------------------
+// maskedTask: no credential of the create request is present in the returned task
+//@ spec maskedTask(t Task) bool = t.MilvusConnectParam.Password == "" && t.MilvusConnectParam.Token == "" && t.MilvusConnectParam.Username == "" && t.KafkaConnectParam.SASL.Password == "" && t.KafkaConnectParam.SASL.Username == ""
+
+//@ func GetTask
+//@   props C18
+//@   requires taskInfo != nil
+//@   ensures [no-credential-in-a-returned-task] maskedTask(result)
+//@   modifies taskInfo.MilvusConnectParam, taskInfo.KafkaConnectParam
+//@   panics never
